@@ -3,6 +3,7 @@ import Nsq.Proofs.AdminFanout
 import Nsq.Tie.AdminGate
 import Nsq.Proofs.AdminProg
 import Nsq.Tie.AdminProg
+import Nsq.Tie.AdminNotify
 /-!
 # C17 — nsqadmin state-changing actions require an admin identity
 
@@ -301,5 +302,75 @@ example : sampleDelete.kind ≠ .createTopic ∧ sampleDelete.kind ≠ .createCh
     sampleDelete.kind ≠ .tombstone := by decide
 
 end Programs
+
+/-! ## Notifications (`notifyAdminAction`) -/
+
+section Notify
+open Nsq.Proofs.AdminNotify Nsq.Tie.AdminNotify
+
+/-- **notify_exact.** For every mutating route, every request and every upstream behaviour:
+(i) without an admin identity, or without a configured `--notification-http-endpoint`, nothing is notified;
+(ii) with an endpoint, the notifications of a run are exactly those of the `ClusterInfo` actions it performed
+— one per action, named after it (`create_topic` plus `create_channel` when the body names a channel) — when
+the handler announces (answer 200; pause / unpause / empty also on 502, they notify before looking at the
+error), and none otherwise (400 / 403 / 502 of create, delete, tombstone). With `admin_fanout` (exactly one
+action on 200/502, none otherwise): exactly one notification per performed action, never one without. -/
+theorem notify_exact (r : Route) (hr : r ∈ adminRoutes) (hm : r.mutating = true) :
+    ∃ sk, skelOf r = some sk ∧ ∀ env : Env,
+      (isAdmin env.conf env.req = false → notifyObs (run env sk).2 = []) ∧
+      (env.conf.notifyOn = false → notifyObs (run env sk).2 = []) ∧
+      (env.conf.notifyOn = true →
+        notifyObs (run env sk).2 =
+          notesFor r.handler (upstreamObs (run env sk).2) (env.req.nonEmptyBody.contains "Channel")
+            (run env sk).1) := by
+  have h := mutating_routes_notify
+  simp only [List.all_eq_true, List.mem_filter] at h
+  have h' := h r ⟨hr, hm⟩
+  obtain ⟨sk0, hsk0, hguard⟩ := mutating_guarded r hr hm
+  cases hs : skelOf r with
+  | none => simp [hs] at h'
+  | some sk =>
+    simp only [hs, Bool.and_eq_true] at h'
+    rw [hs] at hsk0
+    have hsame : sk = sk0 := Option.some.inj hsk0
+    subst hsame
+    refine ⟨sk, rfl, fun env => ⟨?_, ?_, ?_⟩⟩
+    · intro hna; rw [hguard env hna]; rfl
+    · intro hoff
+      have := notifyGated_runSt env hoff sk {} h'.2
+      simpa [run, notifyObs] using this
+    · intro hon; exact notify_lift r.handler sk h'.1 env hon
+
+/-- Routes that do not change state never notify (all paths of their regenerated skeletons). -/
+theorem notify_only_mutating (r : Route) (hr : r ∈ adminRoutes) (hm : r.mutating = false) :
+    ∃ sk, skelOf r = some sk ∧ ∀ p ∈ paths sk, notesOf p.2.1 = [] := by
+  have h := other_routes_silent
+  simp only [List.all_eq_true, List.mem_filter] at h
+  have h' := h r ⟨hr, by simp [hm]⟩
+  cases hs : skelOf r with
+  | none => simp [hs] at h'
+  | some sk =>
+    simp only [hs, List.all_eq_true, beq_iff_eq] at h'
+    exact ⟨sk, rfl, h'⟩
+
+/-- Non-vacuity: an admin pausing a channel with an endpoint configured notifies `pause_channel` once; the
+same request from somebody else notifies nothing; creating topic + channel notifies both. -/
+def notifyEnv (users : List String) (hdrs : List (String × String)) (action : String) (body : List String) : Env :=
+  { sampleEnv users hdrs with
+    conf := { adminUsers := users, aclHeader := "X-Forwarded-User", cidrSet := false, lookupdMode := true, notifyOn := true },
+    req := { method := "POST", headers := hdrs, action := action, opt := "",
+             nonEmptyParams := ["topic", "channel"], nonEmptyBody := body } }
+
+example : run (notifyEnv ["alice"] [("X-Forwarded-User", "alice")] "pause" []) adminSkel_channelActionHandler
+    = (200, [.bodyRead, .upstream "PauseChannel", .notify "pause_channel"]) := by decide
+example : run (notifyEnv ["alice"] [("X-Forwarded-User", "bob")] "pause" []) adminSkel_channelActionHandler
+    = (403, []) := by decide
+example : notifyObs (run (notifyEnv [] [] "" ["Topic", "Channel"]) adminSkel_createTopicChannelHandler).2
+    = ["create_topic", "create_channel"] := by decide
+example : notesFor "createTopicChannelHandler" ["CreateTopicChannel"] true 200 = ["create_topic", "create_channel"] ∧
+    notesFor "deleteTopicHandler" ["DeleteTopic"] false 502 = [] ∧
+    notesFor "topicActionHandler" ["EmptyTopic"] false 502 = ["empty_topic"] := by decide
+
+end Notify
 
 end Nsq.Props.C17
